@@ -159,14 +159,26 @@ func (ef *Filter) Process(ctx context.Context, e *eventlogger.Event) (*eventlogg
 	if i, ok := e.Payload.(EventWrapperInfo); ok {
 		ef.l.RLock()
 		w, err := NewEventWrapper(ctx, ef.Wrapper, i.EventId())
+		// The event's wrapper is derived from the filter's current wrapper,
+		// so when the event doesn't bring its own salt or info, the filter's
+		// are taken at the same moment: a rotation that happens while this
+		// event is being filtered must not mix new salt/info with a key
+		// derived from the old wrapper.
+		info, salt := i.HmacInfo(), i.HmacSalt()
+		if info == nil {
+			info = append([]byte{}, ef.HmacInfo...)
+		}
+		if salt == nil {
+			salt = append([]byte{}, ef.HmacSalt...)
+		}
 		ef.l.RUnlock()
 		if err != nil {
 			return nil, fmt.Errorf("%s: %w", op, err)
 		}
 		optWrapper = w
 		opts = append(opts, WithWrapper(optWrapper))
-		opts = append(opts, WithInfo(i.HmacInfo()))
-		opts = append(opts, WithSalt(i.HmacSalt()))
+		opts = append(opts, WithInfo(info))
+		opts = append(opts, WithSalt(salt))
 	}
 
 	// depending on what filter operations are initialized, a wrapper may or may
